@@ -124,3 +124,29 @@ Theorem C20_nested_disj_min_refuted :
     qs = [QTerm [w_items] w_color w_red; QTerm [] w_top w_x].
 Proof. exact nested_disj_min_refuted. Qed.
 Print Assumptions C20_nested_disj_min_refuted.
+
+(* ---------- mechanism = spec (Nested/ProofsCorr.v, ProofsSearch.v) ---------- *)
+From Verif Require Import Nested.ProofsCorr Nested.ProofsSearch.
+
+(* the same-array reading of the spec, spelled out: a conjunction of term leaves that all address
+   fields of the array chain P holds for a parent iff ONE element chain along P carries every term *)
+Theorem C20_same_array_conj_spec : forall P (leaves : list (bytes * bytes)) n,
+  leaves <> [] ->
+  (sat (QConj (map (fun l => QTerm P (fst l) (snd l)) leaves)) n 0 = true <->
+   exists e, reaches n P e /\ forall l, In l leaves -> has_term e (fst l) (snd l) = true).
+Proof. exact same_array_conj_spec. Qed.
+Print Assumptions C20_same_array_conj_spec.
+
+(* via flatten: for EVERY conjunction of term leaves (same array, several depths of one array,
+   sibling arrays, top-level fields) the term searchers, joined as ConjunctionQuery.Searcher joins
+   them (plain conjunction iff common depth = max depth, NestedConjunctionSearcher at the common
+   depth otherwise), folded by the nested collector and mapped to external ids, return exactly
+   sem_nested.  This is the proved part of the full statement
+   [nested_search_correct_wellscoped_stmt] (ProofsSearch.v; not proved for disjunction / boolean /
+   compound conjuncts, where T2 carries it). *)
+Theorem C20_nested_search_correct_partial : forall docs leaves,
+  leaves <> [] ->
+  wellscoped (QConj (map leafq leaves)) = true /\
+  model_search docs (QConj (map leafq leaves)) = Some (sem_nested docs (QConj (map leafq leaves))).
+Proof. exact nested_search_correct_partial. Qed.
+Print Assumptions C20_nested_search_correct_partial.
